@@ -437,6 +437,10 @@ type vgenOpts struct {
 	// LongDecimals: some doubles are spelled with their exact (long) decimal expansion, or as the
 	// exact midpoint between two adjacent doubles (+ a trailing digit), where only correct rounding helps
 	LongDecimals bool
+	// MaxNodes bounds the number of values of one generated tree (0: 4000), so that a world stays
+	// small whatever the schema's fan-out is; nodes counts what has been generated so far.
+	MaxNodes int
+	nodes    int
 }
 
 type vgen struct {
@@ -570,6 +574,10 @@ func (g *vgen) binVal(max int) []byte {
 
 func (g *vgen) value(t *TType, depth int) *TVal {
 	v := &TVal{T: t}
+	g.o.nodes++
+	if lim := g.o.MaxNodes; (lim == 0 && g.o.nodes > 4000) || (lim > 0 && g.o.nodes > lim) {
+		depth = 0 // budget used up: containers below stay empty, optional members absent
+	}
 	switch t.Kind {
 	case tBOOL:
 		v.B = g.t.Chance(1, 2, "bool")
